@@ -14,7 +14,9 @@ from .core import Batch, Report, parse_answer, is_real_number
 
 SKIP_ERRS = ("overflow", "recursion", "timeout", "memory")
 RANGE_HI = 1e250
-RANGE_LO = 1e-250
+RANGE_LO = 0.0         # no lower limit: the double instance carries an absolute underflow term (`fTiny`, 1024 times the
+                       # smallest subnormal) through products, quotients and powers, so its bound stays valid when an
+                       # intermediate is subnormal; an intermediate that underflows to 0.0 makes the guards on it ambiguous
 
 
 class NumCase:
